@@ -9,6 +9,9 @@ import (
 	"strings"
 )
 
+// VerifTick is called once per expanded state of a search (the harness points it at the explorer's heartbeat).
+var VerifTick = func() {}
+
 // VerifComment is one comment of the in-memory store.
 type VerifComment struct {
 	Path string
@@ -135,6 +138,7 @@ func VerifC17BFS(universe []Report, initial [][]VerifComment, maxComments int, c
 		if len(n.path) > res.MaxDepth {
 			res.MaxDepth = len(n.path)
 		}
+		VerifTick()
 		for mask := 0; mask < 1<<len(universe); mask++ {
 			ev := fmt.Sprintf("run(%05b)", mask)
 			res.Transitions++
